@@ -218,8 +218,10 @@ pub enum Expr {
     Bin(BinOp, Box<Expr>, Box<Expr>),
     /// stage S4: call of a user FUNCTION
     Call(String, Vec<Arg>),
-    /// stage S5: `instance.member`
+    /// stages S5/S3: `instance.member`, `struct.field`
     Fld(String, String),
+    /// stage S3: `array[index]`
+    Idx(String, Box<Expr>),
 }
 
 /// One call argument: optional formal name, `=>` (true) or `:=`/positional (false), expression.
@@ -289,6 +291,16 @@ pub enum Stmt {
     ExprStmt(Expr),
     /// stage S5: `instance(args);`
     FbCall(String, Vec<Arg>),
+    /// stage S3: `a[i] := e;` and `s.f := e;`
+    AssignIdx(String, Expr, Expr),
+    AssignFld(String, String, Expr),
+}
+
+/// stage S3: an array or struct variable of the PROGRAM.
+#[derive(Clone, Debug)]
+pub enum AggDecl {
+    Arr(i64, i64, Ty),
+    Str(String, Vec<(String, Ty)>),
 }
 
 #[derive(Clone, Debug)]
@@ -314,6 +326,8 @@ pub struct Program {
     pub fbs: Vec<FbDef>,
     /// FB instance variables of the PROGRAM: (variable, FB type)
     pub insts: Vec<(String, String)>,
+    /// stage S3: array / struct variables of the PROGRAM
+    pub aggs: Vec<(String, AggDecl)>,
     pub decls: Vec<VarDecl>,
     pub body: Vec<Stmt>,
 }
@@ -354,6 +368,7 @@ pub fn expr_src(e: &Expr, min: u8) -> String {
             }
         }
         Expr::Fld(c, f) => format!("{c}.{f}"),
+        Expr::Idx(a, i) => format!("{a}[{}]", expr_src(i, 0)),
         Expr::Call(f, args) => {
             let parts: Vec<String> = args
                 .iter()
@@ -466,6 +481,12 @@ fn stmt_src(out: &mut String, s: &Stmt, ind: usize) {
         Stmt::FbCall(c, args) => {
             let _ = writeln!(out, "{pad}{};", expr_src(&Expr::Call(c.clone(), args.clone()), 0));
         }
+        Stmt::AssignIdx(a, i, e) => {
+            let _ = writeln!(out, "{pad}{a}[{}] := {};", expr_src(i, 0), expr_src(e, 0));
+        }
+        Stmt::AssignFld(sv, f, e) => {
+            let _ = writeln!(out, "{pad}{sv}.{f} := {};", expr_src(e, 0));
+        }
     }
 }
 
@@ -528,6 +549,20 @@ fn func_src(f: &FuncDef) -> String {
 
 pub fn program_src(p: &Program) -> String {
     let mut s = String::new();
+    let mut seen: Vec<&str> = Vec::new();
+    for (_, d) in &p.aggs {
+        if let AggDecl::Str(tn, fields) = d {
+            if seen.contains(&tn.as_str()) {
+                continue;
+            }
+            seen.push(tn.as_str());
+            let _ = writeln!(s, "TYPE {tn} : STRUCT");
+            for (f, t) in fields {
+                let _ = writeln!(s, "  {f} : {};", t.name());
+            }
+            s.push_str("END_STRUCT END_TYPE\n\n");
+        }
+    }
     for f in &p.funcs {
         s.push_str(&func_src(f));
     }
@@ -550,6 +585,16 @@ pub fn program_src(p: &Program) -> String {
             let _ = writeln!(s, "  {} : {} := {};", d.name, d.ty.name(), init);
         } else {
             let _ = writeln!(s, "  {} : {};", d.name, d.ty.name());
+        }
+    }
+    for (a, d) in &p.aggs {
+        match d {
+            AggDecl::Arr(lo, hi, t) => {
+                let _ = writeln!(s, "  {a} : ARRAY[{lo}..{hi}] OF {};", t.name());
+            }
+            AggDecl::Str(tn, _) => {
+                let _ = writeln!(s, "  {a} : {tn};");
+            }
         }
     }
     for (c, t) in &p.insts {
@@ -583,6 +628,7 @@ pub fn expr_sx(e: &Expr) -> String {
         ),
         Expr::Bin(op, l, r) => format!("( b {} {} {} )", op.word(), expr_sx(l), expr_sx(r)),
         Expr::Fld(c, f) => format!("( fld {c} {f} )"),
+        Expr::Idx(a, i) => format!("( idx {a} {} )", expr_sx(i)),
         Expr::Call(f, args) => {
             let mut a = String::from("(");
             for x in args {
@@ -681,6 +727,8 @@ fn stmt_sx(s: &Stmt) -> String {
         Stmt::Return => "( ret )".into(),
         Stmt::ReturnVal(e) => format!("( retv {} )", expr_sx(e)),
         Stmt::ExprStmt(e) => format!("( expr {} )", expr_sx(e)),
+        Stmt::AssignIdx(a, i, e) => format!("( asgi {a} {} {} )", expr_sx(i), expr_sx(e)),
+        Stmt::AssignFld(sv, f, e) => format!("( asgf {sv} {f} {} )", expr_sx(e)),
         Stmt::FbCall(c, args) => {
             // same argument encoding as a function call
             let call = expr_sx(&Expr::Call(c.clone(), args.clone()));
@@ -737,6 +785,8 @@ pub struct Gen<'a> {
     /// stage S5: FB types and the PROGRAM's instance variables (PROGRAM body only)
     fbs: Vec<FbDef>,
     insts: Vec<(String, String)>,
+    /// stage S3: aggregates in scope (PROGRAM body only)
+    aggs: Vec<(String, AggDecl)>,
     readonly: Vec<String>,
     /// inside a FUNCTION body: its return type (a bare `RETURN;` is rejected there)
     func_ret: Option<Ty>,
@@ -781,7 +831,7 @@ impl<'a> Gen<'a> {
             sabotaged: None,
             restricted: Vec::new(),
             stmt_budget: 0,
-            funcs: Vec::new(), fbs: Vec::new(), insts: Vec::new(),
+            funcs: Vec::new(), fbs: Vec::new(), insts: Vec::new(), aggs: Vec::new(),
             readonly: Vec::new(),
             func_ret: None,
         }
@@ -971,6 +1021,9 @@ impl<'a> Gen<'a> {
         if let Some(c) = self.maybe_fld(Ty::Int(k)) {
             return c;
         }
+        if let Some(c) = self.maybe_agg_read(Ty::Int(k)) {
+            return c;
+        }
         let exact = self.int_vars(&[k]);
         if depth == 0 || self.rng.chance(1, 4) {
             if !exact.is_empty() && self.rng.chance(3, 4) {
@@ -1034,6 +1087,9 @@ impl<'a> Gen<'a> {
             return c;
         }
         if let Some(c) = self.maybe_fld(Ty::Bool) {
+            return c;
+        }
+        if let Some(c) = self.maybe_agg_read(Ty::Bool) {
             return c;
         }
         let bvars = self.bool_vars();
@@ -1179,6 +1235,9 @@ impl<'a> Gen<'a> {
             return c;
         }
         if let Some(c) = self.maybe_fld(Ty::Int(k)) {
+            return c;
+        }
+        if let Some(c) = self.maybe_agg_read(Ty::Int(k)) {
             return c;
         }
         let exact = self.int_vars(&[k]);
@@ -1513,6 +1572,12 @@ impl<'a> Gen<'a> {
             // something after it, so that skipping/leaving is observable
             out.push(self.gen_assign());
             return;
+        }
+        if !self.aggs.is_empty() && self.rng.chance(1, 4) {
+            if let Some(st) = self.gen_agg_assign() {
+                out.push(st);
+                return;
+            }
         }
         if !self.insts.is_empty() && self.rng.chance(1, 6) {
             if let Some(st) = self.gen_fb_call() {
@@ -1999,6 +2064,168 @@ impl<'a> Gen<'a> {
         FbDef { name, params, vars, body }
     }
 
+    /// stage S3: an index expression for array `a` with bounds lo..hi.
+    fn gen_index(&mut self, lo: i64, hi: i64) -> Expr {
+        if self.sab("index-bool") {
+            return Expr::BLit(true);
+        }
+        if self.sab("index-const-out-of-bounds") {
+            return Expr::Lit(None, hi as i128 + 2);
+        }
+        match self.rng.below(10) {
+            0..=4 => {
+                let n = self.rng.range(lo, hi) as i128;
+                lit(n)
+            }
+            5..=7 => {
+                // an integer variable of any kind (value may be out of bounds: IndexOutOfBounds)
+                let vars = self.int_vars(&KINDS);
+                if vars.is_empty() {
+                    lit(lo as i128)
+                } else {
+                    Expr::Var(self.rng.pick(&vars).clone())
+                }
+            }
+            _ => {
+                let vars = self.int_vars(&KINDS);
+                if vars.is_empty() {
+                    lit(lo as i128)
+                } else {
+                    let x = self.rng.pick(&vars).clone();
+                    let k = match self.kind_of(&x) {
+                        Some(Ty::Int(k)) => k,
+                        _ => IKind::DInt,
+                    };
+                    Expr::Bin(BinOp::Add, Box::new(Expr::Var(x)), Box::new(Expr::Lit(Some(k), 1)))
+                }
+            }
+        }
+    }
+
+    /// stage S3: an element / field read of the wanted type.
+    fn maybe_agg_read(&mut self, ty: Ty) -> Option<Expr> {
+        if self.aggs.is_empty() || !self.rng.chance(1, 5) {
+            return None;
+        }
+        let mut cands: Vec<Expr> = Vec::new();
+        let aggs = self.aggs.clone();
+        for (a, d) in &aggs {
+            match d {
+                AggDecl::Arr(lo, hi, t) if *t == ty => {
+                    let i = self.gen_index(*lo, *hi);
+                    cands.push(Expr::Idx(a.clone(), Box::new(i)));
+                }
+                AggDecl::Str(_, fields) => {
+                    for (f, t) in fields {
+                        if *t == ty {
+                            cands.push(Expr::Fld(a.clone(), f.clone()));
+                        }
+                    }
+                }
+                _ => {}
+            }
+        }
+        if cands.is_empty() {
+            return None;
+        }
+        Some(self.rng.pick(&cands).clone())
+    }
+
+    /// stage S3: `a[i] := e;` or `s.f := e;`
+    fn gen_agg_assign(&mut self) -> Option<Stmt> {
+        if self.aggs.is_empty() {
+            return None;
+        }
+        let (a, d) = self.rng.pick(&self.aggs).clone();
+        match d {
+            AggDecl::Arr(lo, hi, t) => {
+                let i = self.gen_index(lo, hi);
+                let e = self.rhs_for(t);
+                Some(Stmt::AssignIdx(a, i, e))
+            }
+            AggDecl::Str(_, fields) => {
+                let (f, t) = self.rng.pick(&fields).clone();
+                let e = self.rhs_for(t);
+                let f = if self.sab("field-unknown") { "nofield".to_string() } else { f };
+                Some(Stmt::AssignFld(a, f, e))
+            }
+        }
+    }
+
+    fn rhs_for(&mut self, t: Ty) -> Expr {
+        match t {
+            Ty::Bool => self.cond(1),
+            Ty::Int(k) => {
+                if self.profile != Profile::Strict && self.rng.chance(1, 4) {
+                    Expr::Lit(None, self.rng.range(0, 90) as i128)
+                } else {
+                    self.int_expr(k, 1)
+                }
+            }
+        }
+    }
+
+    /// Stage S3 program: arrays and structs in the PROGRAM.
+    pub fn gen_program_s3(mut self) -> (Program, Option<&'static str>) {
+        self.gen_decls();
+        let kinds: Vec<IKind> = {
+            let mut ks: Vec<IKind> = Vec::new();
+            for d in &self.decls {
+                if let Ty::Int(k) = d.ty {
+                    if !ks.contains(&k) {
+                        ks.push(k);
+                    }
+                }
+            }
+            if ks.is_empty() {
+                ks.push(IKind::DInt);
+            }
+            ks
+        };
+        let mut aggs: Vec<(String, AggDecl)> = Vec::new();
+        for i in 0..1 + self.rng.below(2) {
+            let (lo, hi) = *self.rng.pick(&[(0i64, 4i64), (1, 3), (-2, 2), (0, 0), (5, 8)]);
+            let t = if self.rng.chance(1, 6) { Ty::Bool } else { Ty::Int(*self.rng.pick(&kinds)) };
+            aggs.push((format!("ar{i}"), AggDecl::Arr(lo, hi, t)));
+        }
+        if self.rng.chance(2, 3) {
+            let mut fields = Vec::new();
+            for j in 0..2 + self.rng.below(2) {
+                let t = if self.rng.chance(1, 5) { Ty::Bool } else { Ty::Int(*self.rng.pick(&kinds)) };
+                fields.push((format!("f{j}"), t));
+            }
+            for i in 0..1 + self.rng.below(2) {
+                aggs.push((format!("sv{i}"), AggDecl::Str("Rec0".into(), fields.clone())));
+            }
+        }
+        self.aggs = aggs.clone();
+        self.stmt_budget = 6 + self.rng.below(12) as i32;
+        let mut body = Vec::new();
+        // the classic: fill an array in a FOR loop
+        if let Some((a, AggDecl::Arr(lo, hi, t))) = aggs.first().cloned() {
+            let ctl: Vec<String> = self.int_vars(&KINDS).into_iter().filter(|n| self.kind_of(n) != Some(Ty::Int(IKind::ULInt))).collect();
+            if !ctl.is_empty() && self.rng.chance(2, 3) {
+                let x = self.rng.pick(&ctl).clone();
+                let k = match self.kind_of(&x) {
+                    Some(Ty::Int(k)) => k,
+                    _ => IKind::DInt,
+                };
+                if lo >= 0 || k.signed() {
+                    let e = self.rhs_for(t);
+                    let hi2 = if self.rng.chance(1, 6) { hi + 1 } else { hi }; // one past the end: IndexOutOfBounds
+                    body.push(Stmt::For(x.clone(), lit(lo as i128), lit(hi2 as i128), None, vec![Stmt::AssignIdx(a, Expr::Var(x), e)]));
+                }
+            }
+        }
+        let top = 3 + self.rng.below(5);
+        for _ in 0..top {
+            self.stmt_budget -= 1;
+            self.gen_stmt(3, false, &mut body);
+        }
+        let sabotaged = self.sabotaged;
+        (Program { funcs: Vec::new(), fbs: Vec::new(), insts: Vec::new(), aggs, decls: self.decls, body }, sabotaged)
+    }
+
     /// `instance.member` of the wanted type (an input or an output of one of the PROGRAM's instances).
     fn maybe_fld(&mut self, ty: Ty) -> Option<Expr> {
         if self.insts.is_empty() || !self.rng.chance(1, 6) {
@@ -2140,7 +2367,7 @@ impl<'a> Gen<'a> {
             self.gen_stmt(3, false, &mut body);
         }
         let sabotaged = self.sabotaged;
-        (Program { funcs, fbs, insts, decls: self.decls, body }, sabotaged)
+        (Program { funcs, fbs, insts, aggs: Vec::new(), decls: self.decls, body }, sabotaged)
     }
 
     /// Stage S4 program: one to three FUNCTIONs and a PROGRAM body that calls them.
@@ -2186,7 +2413,7 @@ impl<'a> Gen<'a> {
             self.gen_stmt(3, false, &mut body);
         }
         let sabotaged = self.sabotaged;
-        (Program { funcs, fbs: Vec::new(), insts: Vec::new(), decls: self.decls, body }, sabotaged)
+        (Program { funcs, fbs: Vec::new(), insts: Vec::new(), aggs: Vec::new(), decls: self.decls, body }, sabotaged)
     }
 
     pub fn gen_program(mut self) -> (Program, Option<&'static str>) {
@@ -2199,7 +2426,7 @@ impl<'a> Gen<'a> {
             self.gen_stmt(3, false, &mut body);
         }
         let sabotaged = self.sabotaged;
-        (Program { funcs: Vec::new(), fbs: Vec::new(), insts: Vec::new(), decls: self.decls, body }, sabotaged)
+        (Program { funcs: Vec::new(), fbs: Vec::new(), insts: Vec::new(), aggs: Vec::new(), decls: self.decls, body }, sabotaged)
     }
 }
 
@@ -2253,13 +2480,28 @@ pub fn dump(h: &TestHarness) -> String {
     if let Some(Value::Instance(id)) = storage.get_global("P") {
         if let Some(inst) = storage.get_instance(*id) {
             let mut nested = Vec::new();
+            let mut aggs = String::new();
             for (name, value) in inst.variables.iter() {
-                if let Value::Instance(sub) = value {
-                    nested.push((name.clone(), *sub));
-                } else {
-                    let _ = write!(s, " {name}={}", show_value(value));
+                match value {
+                    Value::Instance(sub) => nested.push((name.clone(), *sub)),
+                    // stage S3: elements as `a[i]`, fields as `s.f`, after the elementary variables
+                    Value::Array(arr) if arr.dimensions.len() == 1 => {
+                        let lo = arr.dimensions[0].0;
+                        for (j, v) in arr.elements.iter().enumerate() {
+                            let _ = write!(aggs, " {name}[{}]={}", lo + j as i64, show_value(v));
+                        }
+                    }
+                    Value::Struct(sv) => {
+                        for (f, v) in sv.fields.iter() {
+                            let _ = write!(aggs, " {name}.{f}={}", show_value(v));
+                        }
+                    }
+                    _ => {
+                        let _ = write!(s, " {name}={}", show_value(value));
+                    }
                 }
             }
+            s.push_str(&aggs);
             // stage S5: the variables of every FB instance held by the PROGRAM, as `inst.var`
             for (name, sub) in nested {
                 if let Some(fb) = storage.get_instance(sub) {
@@ -2380,6 +2622,15 @@ pub fn emit_case(out: &mut Out, n: u64, prog: &Program, tags: &str, inputs: Vec<
     for (c, t) in &prog.insts {
         out.line(format!("inst {c} {t}"));
     }
+    for (a, d) in &prog.aggs {
+        match d {
+            AggDecl::Arr(lo, hi, t) => out.line(format!("arr {a} {lo} {hi} {}", t.name())),
+            AggDecl::Str(tn, fields) => {
+                let fs: Vec<String> = fields.iter().map(|(f, t)| format!("( {f} {} )", t.name())).collect();
+                out.line(format!("svar {a} {tn} ( {} )", fs.join(" ")));
+            }
+        }
+    }
     out.line(format!("body {}", block_sx(&prog.body)));
     out.line(format!("src {}", hex(source.as_bytes())));
     out.line("check");
@@ -2488,7 +2739,7 @@ pub fn witnesses() -> Vec<(&'static str, Program)> {
         (
             "drift-int-literal",
             Program {
-                funcs: Vec::new(), fbs: Vec::new(), insts: Vec::new(),
+                funcs: Vec::new(), fbs: Vec::new(), insts: Vec::new(), aggs: Vec::new(),
                 decls: vec![decl("c", int(Int), 32766)],
                 body: vec![asg("c", bin(BinOp::Add, v("c"), lit(1)))],
             },
@@ -2496,7 +2747,7 @@ pub fn witnesses() -> Vec<(&'static str, Program)> {
         (
             "mixed-sign-compare",
             Program {
-                funcs: Vec::new(), fbs: Vec::new(), insts: Vec::new(),
+                funcs: Vec::new(), fbs: Vec::new(), insts: Vec::new(), aggs: Vec::new(),
                 decls: vec![decl("i", int(Int), -1), decl("u", int(UInt), 3), decl("b", Ty::Bool, 0)],
                 body: vec![asg("b", bin(BinOp::Lt, v("i"), v("u")))],
             },
@@ -2504,7 +2755,7 @@ pub fn witnesses() -> Vec<(&'static str, Program)> {
         (
             "mixed-sign-arith",
             Program {
-                funcs: Vec::new(), fbs: Vec::new(), insts: Vec::new(),
+                funcs: Vec::new(), fbs: Vec::new(), insts: Vec::new(), aggs: Vec::new(),
                 decls: vec![decl("u", int(UInt), 3)],
                 body: vec![asg("u", bin(BinOp::Add, v("u"), lit(-1)))],
             },
@@ -2512,7 +2763,7 @@ pub fn witnesses() -> Vec<(&'static str, Program)> {
         (
             "neg-unsigned",
             Program {
-                funcs: Vec::new(), fbs: Vec::new(), insts: Vec::new(),
+                funcs: Vec::new(), fbs: Vec::new(), insts: Vec::new(), aggs: Vec::new(),
                 decls: vec![decl("u", int(UInt), 3), decl("w", int(UInt), 0)],
                 body: vec![asg("w", neg(v("u")))],
             },
@@ -2520,7 +2771,7 @@ pub fn witnesses() -> Vec<(&'static str, Program)> {
         (
             "return-in-program",
             Program {
-                funcs: Vec::new(), fbs: Vec::new(), insts: Vec::new(),
+                funcs: Vec::new(), fbs: Vec::new(), insts: Vec::new(), aggs: Vec::new(),
                 decls: vec![decl("x", int(DInt), 0)],
                 body: vec![asg("x", lit(1)), Stmt::Return, asg("x", lit(2))],
             },
@@ -2528,7 +2779,7 @@ pub fn witnesses() -> Vec<(&'static str, Program)> {
         (
             "pow-negative-exponent",
             Program {
-                funcs: Vec::new(), fbs: Vec::new(), insts: Vec::new(),
+                funcs: Vec::new(), fbs: Vec::new(), insts: Vec::new(), aggs: Vec::new(),
                 decls: vec![decl("x", int(DInt), 2), decl("y", int(DInt), -1)],
                 body: vec![asg("x", bin(BinOp::Pow, v("x"), v("y")))],
             },
@@ -2536,7 +2787,7 @@ pub fn witnesses() -> Vec<(&'static str, Program)> {
         (
             "for-unsigned-negative-step",
             Program {
-                funcs: Vec::new(), fbs: Vec::new(), insts: Vec::new(),
+                funcs: Vec::new(), fbs: Vec::new(), insts: Vec::new(), aggs: Vec::new(),
                 decls: vec![decl("u", int(UInt), 0), decl("n", int(DInt), 0)],
                 body: vec![Stmt::For(
                     "u".into(),
@@ -2550,7 +2801,7 @@ pub fn witnesses() -> Vec<(&'static str, Program)> {
         (
             "for-undeclared-control",
             Program {
-                funcs: Vec::new(), fbs: Vec::new(), insts: Vec::new(),
+                funcs: Vec::new(), fbs: Vec::new(), insts: Vec::new(), aggs: Vec::new(),
                 decls: vec![decl("n", int(DInt), 0)],
                 body: vec![Stmt::For(
                     "zz".into(),
@@ -2564,7 +2815,7 @@ pub fn witnesses() -> Vec<(&'static str, Program)> {
         (
             "case-else-unchecked-store",
             Program {
-                funcs: Vec::new(), fbs: Vec::new(), insts: Vec::new(),
+                funcs: Vec::new(), fbs: Vec::new(), insts: Vec::new(), aggs: Vec::new(),
                 decls: vec![decl("d", int(DInt), 0)],
                 body: vec![Stmt::Case(
                     v("d"),
@@ -2576,7 +2827,7 @@ pub fn witnesses() -> Vec<(&'static str, Program)> {
         (
             "case-else-unchecked-condition",
             Program {
-                funcs: Vec::new(), fbs: Vec::new(), insts: Vec::new(),
+                funcs: Vec::new(), fbs: Vec::new(), insts: Vec::new(), aggs: Vec::new(),
                 decls: vec![decl("d", int(DInt), 0)],
                 body: vec![Stmt::Case(
                     v("d"),
@@ -2588,7 +2839,7 @@ pub fn witnesses() -> Vec<(&'static str, Program)> {
         (
             "for-ulint-cast",
             Program {
-                funcs: Vec::new(), fbs: Vec::new(), insts: Vec::new(),
+                funcs: Vec::new(), fbs: Vec::new(), insts: Vec::new(), aggs: Vec::new(),
                 decls: vec![decl("a", int(ULInt), i64::MAX as i128), decl("i", int(ULInt), 0), decl("n", int(DInt), 0)],
                 body: vec![
                     asg("a", bin(BinOp::Add, v("a"), tl(ULInt, 10))),
@@ -2605,7 +2856,7 @@ pub fn witnesses() -> Vec<(&'static str, Program)> {
         (
             "drift-widening-assignment",
             Program {
-                funcs: Vec::new(), fbs: Vec::new(), insts: Vec::new(),
+                funcs: Vec::new(), fbs: Vec::new(), insts: Vec::new(), aggs: Vec::new(),
                 decls: vec![decl("d", int(DInt), 0), decl("s", int(SInt), 3)],
                 body: vec![asg("d", v("s"))],
             },
@@ -2615,6 +2866,7 @@ pub fn witnesses() -> Vec<(&'static str, Program)> {
             Program {
                 fbs: Vec::new(),
                 insts: Vec::new(),
+                aggs: Vec::new(),
                 funcs: vec![FuncDef {
                     name: "F0".into(),
                     ret: int(DInt),
@@ -2631,6 +2883,7 @@ pub fn witnesses() -> Vec<(&'static str, Program)> {
             Program {
                 fbs: Vec::new(),
                 insts: Vec::new(),
+                aggs: Vec::new(),
                 funcs: vec![FuncDef {
                     name: "F0".into(),
                     ret: int(DInt),
@@ -2657,7 +2910,7 @@ pub fn witnesses() -> Vec<(&'static str, Program)> {
         (
             "drift-literal-out-of-range",
             Program {
-                funcs: Vec::new(), fbs: Vec::new(), insts: Vec::new(),
+                funcs: Vec::new(), fbs: Vec::new(), insts: Vec::new(), aggs: Vec::new(),
                 decls: vec![decl("s", int(SInt), 0), decl("u", int(UInt), 0)],
                 body: vec![asg("s", lit(1000)), asg("u", lit(-5))],
             },
@@ -2699,6 +2952,14 @@ pub fn raw_witnesses() -> Vec<(&'static str, &'static str)> {
         (
             "fb-call-without-arguments",
             "FUNCTION_BLOCK Acc\nVAR_INPUT\n  x : INT := 5;\nEND_VAR\nVAR_OUTPUT\n  o : INT;\nEND_VAR\no := x;\nEND_FUNCTION_BLOCK\n\nPROGRAM P\nVAR\n  a : Acc; r : INT;\nEND_VAR\na();\nr := a.o;\nEND_PROGRAM\n",
+        ),
+        (
+            "struct-field-initialiser-ignored",
+            "TYPE Pt : STRUCT x : INT; y : DINT := 5; END_STRUCT END_TYPE\nPROGRAM P\nVAR\n  p : Pt; d : DINT := DINT#-1;\nEND_VAR\nd := p.y;\nEND_PROGRAM\n",
+        ),
+        (
+            "struct-field-case",
+            "TYPE Pt : STRUCT x : INT; y : DINT; END_STRUCT END_TYPE\nPROGRAM P\nVAR\n  p : Pt; v : INT;\nEND_VAR\nv := p.X;\nEND_PROGRAM\n",
         ),
         (
             "return-variable-case",
@@ -2771,7 +3032,7 @@ pub fn matrix_programs() -> Vec<(String, Program)> {
         for &t2 in &types {
             out.push((
                 format!("assign-{}-{}", t1.name(), t2.name()),
-                Program { funcs: Vec::new(), fbs: Vec::new(), insts: Vec::new(), decls: vec![mk("x", t1, true), mk("y", t2, false)], body: vec![asg("x", v("y"))] },
+                Program { funcs: Vec::new(), fbs: Vec::new(), insts: Vec::new(), aggs: Vec::new(), decls: vec![mk("x", t1, true), mk("y", t2, false)], body: vec![asg("x", v("y"))] },
             ));
         }
     }
@@ -2786,7 +3047,7 @@ pub fn matrix_programs() -> Vec<(String, Program)> {
                 out.push((
                     format!("bin-{opname}-{}-{}", t1.name(), t2.name()),
                     Program {
-                        funcs: Vec::new(), fbs: Vec::new(), insts: Vec::new(),
+                        funcs: Vec::new(), fbs: Vec::new(), insts: Vec::new(), aggs: Vec::new(),
                         decls: vec![mk("l", t1, false), mk("r", t2, true), mk("z", target, true)],
                         body: vec![asg("z", bin(op, v("l"), v("r")))],
                     },
@@ -2797,12 +3058,12 @@ pub fn matrix_programs() -> Vec<(String, Program)> {
     for &t1 in &types {
         out.push((
             format!("neg-{}", t1.name()),
-            Program { funcs: Vec::new(), fbs: Vec::new(), insts: Vec::new(), decls: vec![mk("l", t1, true), mk("z", t1, true)], body: vec![asg("z", neg(v("l")))] },
+            Program { funcs: Vec::new(), fbs: Vec::new(), insts: Vec::new(), aggs: Vec::new(), decls: vec![mk("l", t1, true), mk("z", t1, true)], body: vec![asg("z", neg(v("l")))] },
         ));
         out.push((
             format!("not-{}", t1.name()),
             Program {
-                funcs: Vec::new(), fbs: Vec::new(), insts: Vec::new(),
+                funcs: Vec::new(), fbs: Vec::new(), insts: Vec::new(), aggs: Vec::new(),
                 decls: vec![mk("l", t1, true), mk("z", Ty::Bool, true)],
                 body: vec![asg("z", Expr::Un(UnOp::Not, Box::new(v("l"))))],
             },
@@ -2813,7 +3074,7 @@ pub fn matrix_programs() -> Vec<(String, Program)> {
             out.push((
                 format!("for-{}-{}", t1.name(), t2.name()),
                 Program {
-                    funcs: Vec::new(), fbs: Vec::new(), insts: Vec::new(),
+                    funcs: Vec::new(), fbs: Vec::new(), insts: Vec::new(), aggs: Vec::new(),
                     decls: vec![
                         mk("c", t1, true),
                         VarDecl { name: "lo".into(), ty: t2, init: 1, typed_init: false, has_init: true },
@@ -2836,7 +3097,7 @@ pub fn matrix_programs() -> Vec<(String, Program)> {
             out.push((
                 format!("case-{}-{}", t1.name(), k2.name()),
                 Program {
-                    funcs: Vec::new(), fbs: Vec::new(), insts: Vec::new(),
+                    funcs: Vec::new(), fbs: Vec::new(), insts: Vec::new(), aggs: Vec::new(),
                     decls: vec![mk("s", t1, true), mk("n", Ty::Int(IKind::DInt), true)],
                     body: vec![Stmt::Case(
                         v("s"),
@@ -2905,14 +3166,17 @@ pub fn run_focus(args: &Args, focus: Focus) -> i32 {
         let stage_roll = rng.below(100);
         let s4 = stage_roll < 25;
         let s5 = (25..45).contains(&stage_roll);
+        let s3 = (45..65).contains(&stage_roll);
         let (prog, sabotaged) = if s4 {
             Gen::new(&mut rng, profile, sabotage).gen_program_s4()
         } else if s5 {
             Gen::new(&mut rng, profile, sabotage).gen_program_s5()
+        } else if s3 {
+            Gen::new(&mut rng, profile, sabotage).gen_program_s3()
         } else {
             Gen::new(&mut rng, profile, sabotage).gen_program()
         };
-        let stage = if s4 { "s4" } else if s5 { "s5" } else { "s2" };
+        let stage = if s4 { "s4" } else if s5 { "s5" } else if s3 { "s3" } else { "s2" };
         let rate = if focus == Focus::C03 { 25 } else { 12 };
         let inputs = gen_inputs(&mut rng, &prog, cycles, rate);
         let mut tags = format!("profile-{} stage-{stage}", profile.name());
